@@ -35,7 +35,7 @@ def gen_case(rnd, tier: str, i: Any) -> Dict[str, Any]:
             p = gen_sim.random_params(rnd, tier, rank=r, first_step=first_step, n_steps=n_steps, graph_launch=True, n_streams=rnd.choice([2, 3, 4]),
                                       ops_per_step=rnd.choice([(3, 8), (6, 12)]), p_sync=0.0, p_event=0.0)
             files[f"rank{r}.json"] = gen_sim.gen_trace(rnd, **p)
-        return {"files": files, "pre_calls": [], "gsim": True}
+        return {"files": files, "pre_calls": [], "gsim": True, "inc_last": rnd.random() < 0.4}
     c = gen_int.gen_case(rnd, tier, need_comm=True, annotations=rnd.random() < 0.5)
     c["pre_calls"] = rnd.sample(c04.PRE_CALLS, rnd.choice([0, 0, 1, 2, 3]))
     return c
@@ -56,7 +56,9 @@ def run_case(case: Dict[str, Any], ctx: Any) -> core.CaseResult:
         res.key = "repo_tests:" + case["file"]
         repotests.run(case["file"], res, ctx)
         return res
-    per_rank = c04.kept_activities(case)
+    per_rank = c04.kept_activities(case, bool(case.get("inc_last")))
+    if case.get("inc_last"):
+        res.counters["loads_including_last_step"] += 1
     if case.get("gsim"):
         res.counters["cases_with_host_side_steps_and_graph_launches"] += 1
     exp = {}
@@ -72,7 +74,7 @@ def run_case(case: Dict[str, Any], ctx: Any) -> core.CaseResult:
     d = ctx.scratch.new("c07")
     try:
         core.write_trace_files(d, case["files"])
-        ok, ta = drv.guard(res, "TraceAnalysis(load)", drv.new_analysis, d)
+        ok, ta = drv.guard(res, "TraceAnalysis(load)", drv.new_analysis, d, **({"include_last_profiler_step": True} if case.get("inc_last") else {}))
         if not ok:
             return res
         for nm in case.get("pre_calls", []):
